@@ -193,7 +193,7 @@ func resolveErrClass(err error) string {
 	case errors.Is(err, ech.ErrQueryRefused):
 		return "refused"
 	}
-	return "other:" + err.Error()
+	return "other"
 }
 
 func ipToken(ip net.IP) string {
